@@ -11,6 +11,7 @@ import (
 	"fmt"
 	"os"
 	"path/filepath"
+	"runtime"
 	"sort"
 	"strings"
 	"sync"
@@ -151,6 +152,7 @@ type result struct {
 }
 
 func record(w workload) result {
+	quiesce()
 	live := lib.Scratch("c03live")
 	l := storeh.NewLedger()
 	var order []uint64
@@ -316,12 +318,37 @@ func classify(s string) string {
 }
 
 var depth2 bool
-var depth2Every = 6
+var depth2Every = 8
 var recoveryJobs = make(chan *crashfs.Image, 1<<16)
 
 // recoverUnderJournal runs the real recovery (Open, wait for indexing, Close) on a materialised image under the
 // controlled scheduler with journaling and returns its journal (paths are under dir).
+var baseGoroutines int
+
+// quiesce waits until the background goroutines of stores used in free-running mode (oracle checks) are gone:
+// a scheduled execution must not share the process with free-running instrumented goroutines.
+var quiesceWaits, quiesceTimeouts int
+
+func quiesce() bool {
+	for i := 0; i < 400; i++ {
+		if runtime.NumGoroutine() <= baseGoroutines {
+			return true
+		}
+		quiesceWaits++
+		time.Sleep(5 * time.Millisecond)
+	}
+	quiesceTimeouts++
+	if os.Getenv("VERIF_DEBUG") != "" {
+		buf := make([]byte, 1<<16)
+		fmt.Fprintf(os.Stderr, "quiesce timeout: %d goroutines (base %d)\n%s\n", runtime.NumGoroutine(), baseGoroutines, buf[:runtime.Stack(buf, true)])
+	}
+	return false
+}
+
 func recoverUnderJournal(w workload, dir string) ([]vos.Op, string) {
+	if !quiesce() {
+		return nil, "skip: background goroutines of earlier free-running checks did not terminate"
+	}
 	vos.Reset(true)
 	e := vsched.Run(nil, vsched.Options{MaxSteps: 2000000}, func() {
 		st, err := store.Open(dir, w.opts())
@@ -413,6 +440,11 @@ func checkJournal(w workload, res result, seen map[[32]byte]bool, opts crashfs.O
 		}
 		ops2, fail := recoverUnderJournal(w, base)
 		recoveries++
+		if strings.HasPrefix(fail, "skip:") {
+			c.CapHit("crash-during-recovery: " + fail)
+			os.RemoveAll(base)
+			continue
+		}
 		if fail != "" {
 			c.Violate(lib.Violation{Sig: fmt.Sprintf("recovery-run-failed workload=%s %s", w.name, classify(strings.SplitN(fail, "\n", 2)[0])), Detail: fail})
 			os.RemoveAll(base)
@@ -478,6 +510,7 @@ type replay struct {
 
 func main() {
 	c = lib.New("C03", "fault_enumeration", 120*time.Second, 25*time.Minute)
+	baseGoroutines = runtime.NumGoroutine()
 	c.Assume("persistence model: per-file prefix of un-fsynced writes + torn next write; directory entry durable once the file or its parent directory was fsynced; remove/rename atomic and ordered")
 	c.Assume("workloads run under the cooperative scheduler with the default schedule, so the journal is reproducible")
 	opts := crashfs.Options{Torn: true, MaxPerPoint: 4096}
@@ -520,35 +553,6 @@ func main() {
 	}
 	var summaries []any
 	seen := map[string]map[[32]byte]bool{}
-	for _, w := range wls {
-		seen[w.name] = map[[32]byte]bool{}
-		if c.Expired() {
-			c.CapHit("workload " + w.name + " not explored")
-			continue
-		}
-		res := record(w)
-		if res.fail != "" {
-			fmt.Fprintln(os.Stderr, "HARNESS ERROR: workload", w.name, "failed:", res.fail)
-			os.Exit(2)
-		}
-		sm := checkJournal(w, res, seen[w.name], opts)
-		os.RemoveAll(res.live)
-		summaries = append(summaries, sm)
-		bs, _ := json.Marshal(sm)
-		fmt.Println(" ", string(bs))
-		if len(summaries) <= 3 {
-			var files []string
-			seenF := map[string]bool{}
-			for _, o := range res.ops {
-				if o.Kind == "write" && !seenF[o.Path] {
-					seenF[o.Path] = true
-					files = append(files, filepath.Base(filepath.Dir(o.Path))+"/"+filepath.Base(o.Path))
-				}
-			}
-			sort.Strings(files)
-			c.Sample(map[string]any{"workload": w.name, "files_written": files, "first_ops": fmt.Sprint(opsHead(res.ops, 12))})
-		}
-	}
 	// ---- concurrent committers: every schedule (preemption bound 1) of two committers on the synced store gives its
 	// own journal; the first N distinct journals are crash-enumerated
 	if os.Getenv("VERIF_ONLY") == "" || os.Getenv("VERIF_ONLY") == "concurrent2" {
@@ -619,6 +623,7 @@ func main() {
 			for _, f := range []string{"crash_points", "images", "distinct_images_checked", "recovery_runs_crashed_again", "second_level_images_checked"} {
 				tot[f] = tot[f].(int) + sm[f].(int)
 			}
+			quiesce()
 			return len(journals) < maxJournals && !c.Expired()
 		})
 		tot["schedules_explored"] = stx.Execs
@@ -631,6 +636,37 @@ func main() {
 		fmt.Println(" ", string(bs))
 		sched.Cleanup()
 	}
+	for _, w := range wls {
+		seen[w.name] = map[[32]byte]bool{}
+		if c.Expired() {
+			c.CapHit("workload " + w.name + " not explored")
+			continue
+		}
+		res := record(w)
+		if res.fail != "" {
+			fmt.Fprintln(os.Stderr, "HARNESS ERROR: workload", w.name, "failed:", res.fail)
+			os.Exit(2)
+		}
+		sm := checkJournal(w, res, seen[w.name], opts)
+		os.RemoveAll(res.live)
+		summaries = append(summaries, sm)
+		bs, _ := json.Marshal(sm)
+		fmt.Println(" ", string(bs))
+		if len(summaries) <= 3 {
+			var files []string
+			seenF := map[string]bool{}
+			for _, o := range res.ops {
+				if o.Kind == "write" && !seenF[o.Path] {
+					seenF[o.Path] = true
+					files = append(files, filepath.Base(filepath.Dir(o.Path))+"/"+filepath.Base(o.Path))
+				}
+			}
+			sort.Strings(files)
+			c.Sample(map[string]any{"workload": w.name, "files_written": files, "first_ops": fmt.Sprint(opsHead(res.ops, 12))})
+		}
+	}
+	c.Set("quiesce_waits_5ms", quiesceWaits)
+	c.Set("quiesce_timeouts", quiesceTimeouts)
 	c.Set("workloads", summaries)
 	c.Finish("for every workload: every crash point of its journal x every combination of per-file prefixes of un-fsynced writes (+ torn variants at half length and 512-byte boundaries), deduplicated by image content; each distinct image is reopened with the real recovery code and checked (acked txs identical, dense chain, BlRoot, dual proofs from every acked state, index = recovered history, new commit, second reopen); distinct = distinct images", !c.Expired())
 }
